@@ -13,16 +13,22 @@ COMMON_ASSUMPTIONS = [
 
 CONFIG = {
     "C01": dict(
-        level_text="Kernel-checked Lean theorems (Props/C01.lean) state the read semantics for all 2^64 payloads, all fitting ranges and all bit indices over the executable model of data.go/reinterpret.go; the model is compared with the real functions on all 4160 geometries x GF(2) payload basis + random words on every run, together with an independent bit-by-bit oracle.",
-        level_note="Trusted: Lean kernel; the hand-written model Model/Bits.lean (Go uint8/uint64 semantics) validated only by the correspondence run; harness and driver. Axioms: propext, Quot.sound, Classical.choice at most.",
+        technique="Lean 4 kernel-checked theorems about an executable model; the model is tied to the code (a) by a Go-to-Lean translator run on every check with equivalence to the model proved for all inputs (bv_decide) and (b) by differential execution (correspondence) on every run",
+        modules=["CanVerif.Props.C01", "CanVerif.Bridge.DataGo", "CanVerif.Props.C01Code"],
+        t2_modules=["CanVerif.Bridge.DataGo", "CanVerif.Props.C01Code"],
+        level_text="Kernel-checked Lean theorems (Props/C01.lean) state the read semantics for all 2^64 payloads, all fitting ranges and all bit indices over the executable model of data.go/reinterpret.go; the model is compared with the real functions on all 4160 geometries x GF(2) payload basis + random words on every run, together with an independent bit-by-bit oracle. The functions themselves are additionally translated from the working tree to Lean on every run (T1, harness/cmd/go2lean) and proved equal to the model for all arguments, and free of run-time panics, by bv_decide (Bridge/DataGo.lean); Props/C01Code.lean restates the theorems about the translated code. If the translator does not cover the current source shape the run says so (coverage.tie_notes) and rests on the correspondence run.",
+        level_note="Trusted: Lean kernel; the hand-written model Model/Bits.lean (Go uint8/uint64 semantics) validated only by the correspondence run; harness and driver. Axioms: propext, Quot.sound, Classical.choice at most. T1 bridge theorems and the *Code corollaries additionally depend on bv_decide certificate axioms (<theorem>._native.bv_decide.ax_*, i.e. Lean.ofReduceBool on the LRAT checker), listed per theorem under coverage.axioms; the property theorems over the model do not. Trusted in T1: the translator's rendering of Go integer semantics (go/types decides every type), [8]byte as a 64-bit vector, encoding/binary and math/bits intrinsics.",
         level="proof", exhaustive=True,
         exhaustive_what="all 4160 fitting (order,start,length) geometries; all 256 Bit indices; payloads: GF(2) basis + seeded random",
         trivial=r"^(0|1|-1|ok|err|-|0{16}|f{16}|18446744073709551615)$",
-        trusted_base=["Go integer semantics as modelled in Model/Bits.lean (uint8 wrap-around, shifts >= width give 0)"],
+        trusted_base=["Go integer semantics as modelled in Model/Bits.lean (uint8 wrap-around, shifts >= width give 0)", "T1: harness/cmd/go2lean (Go -> Lean translator) and bv_decide's certificate checker (axioms listed per theorem)"],
     ),
     "C02": dict(
-        level_text="Kernel-checked Lean theorems (Props/C02.lean): inside/outside bit semantics of writes, read-after-write, signed writes, commutation of disjoint writes and permutation-invariance of write histories, for all payloads/values/ranges; model compared with the real setters on all 4160 geometries and sampled histories each run.",
-        level_note="Trusted: Lean kernel; Model/Bits.lean validated by correspondence; harness and driver.",
+        technique="Lean 4 kernel-checked theorems about an executable model; the model is tied to the code (a) by a Go-to-Lean translator run on every check with equivalence to the model proved for all inputs (bv_decide) and (b) by differential execution (correspondence) on every run",
+        modules=["CanVerif.Props.C02", "CanVerif.Bridge.DataGo", "CanVerif.Props.C02Code"],
+        t2_modules=["CanVerif.Bridge.DataGo", "CanVerif.Props.C02Code"],
+        level_text="Kernel-checked Lean theorems (Props/C02.lean): inside/outside bit semantics of writes, read-after-write, signed writes, commutation of disjoint writes and permutation-invariance of write histories, for all payloads/values/ranges; model compared with the real setters on all 4160 geometries and sampled histories each run. The functions themselves are additionally translated from the working tree to Lean on every run (T1, harness/cmd/go2lean) and proved equal to the model for all arguments, and free of run-time panics, by bv_decide (Bridge/DataGo.lean); Props/C02Code.lean restates the theorems about the translated code. If the translator does not cover the current source shape the run says so (coverage.tie_notes) and rests on the correspondence run.",
+        level_note="Trusted: Lean kernel; Model/Bits.lean validated by correspondence; harness and driver. T1 bridge theorems and the *Code corollaries additionally depend on bv_decide certificate axioms (<theorem>._native.bv_decide.ax_*, i.e. Lean.ofReduceBool on the LRAT checker), listed per theorem under coverage.axioms; the property theorems over the model do not. Trusted in T1: the translator's rendering of Go integer semantics (go/types decides every type), [8]byte as a 64-bit vector, encoding/binary and math/bits intrinsics.",
         level="proof", exhaustive=True,
         exhaustive_what="all 4160 fitting geometries; all 256 SetBit indices; values/priors: boundary + seeded random; write histories sampled",
         trivial=r"^(0|1|-|0{16}|f{16}|0{16} 0{16}|f{16} f{16})$",
@@ -70,8 +76,11 @@ CONFIG = {
         trusted_base=["encoding/json (stdlib) modelled in Model/Json.lean, validated by correspondence"],
     ),
     "C17": dict(
-        level_text="Kernel-checked Lean theorems (Props/C17.lean): the three checks are equivalent to the declarative fit predicates for all arguments, and a passing check confines reads/writes to the first frameLength bytes; the model is compared with the real functions on the complete 1,175,040-case domain on every run.",
-        level_note="Trusted: Lean kernel; Model/Bits.lean (checkLE/checkBE/checkValue) validated by the exhaustive correspondence run; harness and driver.",
+        technique="Lean 4 kernel-checked theorems about an executable model; the model is tied to the code (a) by a Go-to-Lean translator run on every check with equivalence to the model proved for all inputs (bv_decide) and (b) by differential execution (correspondence) on every run",
+        modules=["CanVerif.Props.C17", "CanVerif.Bridge.DataGo", "CanVerif.Props.C17Code"],
+        t2_modules=["CanVerif.Bridge.DataGo", "CanVerif.Props.C17Code"],
+        level_text="Kernel-checked Lean theorems (Props/C17.lean): the three checks are equivalent to the declarative fit predicates for all arguments, and a passing check confines reads/writes to the first frameLength bytes; the model is compared with the real functions on the complete 1,175,040-case domain on every run. The functions themselves are additionally translated from the working tree to Lean on every run (T1, harness/cmd/go2lean) and proved equal to the model for all arguments, and free of run-time panics, by bv_decide (Bridge/DataGo.lean); Props/C17Code.lean restates the theorems about the translated code. If the translator does not cover the current source shape the run says so (coverage.tie_notes) and rests on the correspondence run.",
+        level_note="Trusted: Lean kernel; Model/Bits.lean (checkLE/checkBE/checkValue) validated by the exhaustive correspondence run; harness and driver. T1 bridge theorems and the *Code corollaries additionally depend on bv_decide certificate axioms (<theorem>._native.bv_decide.ax_*, i.e. Lean.ofReduceBool on the LRAT checker), listed per theorem under coverage.axioms; the property theorems over the model do not. Trusted in T1: the translator's rendering of Go integer semantics (go/types decides every type), [8]byte as a 64-bit vector, encoding/binary and math/bits intrinsics.",
         level="proof", exhaustive=True,
         exhaustive_what="the complete domain frameLength 0..8 x start 0..255 x length 1..255 x {LE,BE} (1,175,040 cases); CheckValue bits 1..64 at boundaries + random",
         trivial=r"^(err|-)$",
@@ -223,7 +232,29 @@ def _extract_runner(work):
     return ""
 
 
-PRE_PROVE = {"C13": _extract_runner}
+def _go2lean(work):
+    """regenerate lean/CanVerif/Gen/DataGo.lean from /repo's working tree (T1); '' on success"""
+    import subprocess, os
+    here = os.path.dirname(os.path.dirname(os.path.abspath(__file__)))
+    out = os.path.join(here, "lean", "CanVerif", "Gen", "DataGo.lean")
+    os.makedirs(os.path.dirname(out), exist_ok=True)
+    try:
+        os.unlink(out)
+    except OSError:
+        pass
+    env = dict(os.environ, GOFLAGS="-mod=mod", GOPROXY="off", GOSUMDB="off", GOTOOLCHAIN="local")
+    r = subprocess.run(["go", "run", "./cmd/go2lean", os.environ.get("VERIF_REPO", "/repo"), out],
+                       cwd=os.path.join(here, "harness"), env=env, stdout=subprocess.PIPE, stderr=subprocess.STDOUT, text=True)
+    if r.returncode != 0:
+        try:
+            os.unlink(out)
+        except OSError:
+            pass
+        return "UNAVAILABLE: T1 translator (harness/cmd/go2lean) does not cover the current source: " + r.stdout[-500:].strip()
+    return ""
+
+
+PRE_PROVE = {"C13": _extract_runner, "C01": _go2lean, "C02": _go2lean, "C17": _go2lean}
 def _unicode_tie(work, impl):
     """the committed unicode tables equal what the toolchain's unicode package says now"""
     import subprocess, os
